@@ -108,3 +108,13 @@ pub(crate) use std::panic::resume_unwind as real_resume_unwind;
 pub(crate) fn stub_resume_unwind(_payload: Box<dyn std::any::Any + Send>) -> ! {
     panic!("resume_unwind (salsa cancellation or propagated panic)")
 }
+
+/// Stub for salsa's `Condvar::wait` shim in single-handle harnesses: with one handle nothing can ever
+/// signal, so reaching a blocking wait is reported as a panic instead of being encoded
+/// (parking_lot's parking machinery is far outside what CBMC can decide).
+pub(crate) fn stub_condvar_wait<'a, T>(
+    _cv: &crate::sync::Condvar,
+    _guard: crate::sync::MutexGuard<'a, T>,
+) -> crate::sync::MutexGuard<'a, T> {
+    panic!("blocking wait reached in a single-handle harness")
+}
